@@ -234,6 +234,12 @@ func (h *H) runSched(sc schedScenario, dl time.Time) *ScenarioReport {
 	}
 	for _, b := range bounds {
 		st := verifrt.Explore(verifrt.Config{Name: sc.name, Bound: b, Shard: h.Shard, NShards: h.NShards, Deadline: dl, Sleep: b < 0 && !h.NoSleep}, sc.body, sc.oracle)
+		if st.Diverged > 0 {
+			r.Notes = append(r.Notes, fmt.Sprintf("bound %d: %d execution(s) left the schedule prefix they were given - the code's path depends on something the scheduler does not own (map iteration order, ...); they were judged but not expanded, the scenario is NOT exhaustive", b, st.Diverged))
+			mergeViol(r, st)
+			r.Executions, r.States, r.Transitions = st.Executions, st.States, st.Transitions
+			break
+		}
 		if !st.Complete {
 			r.Notes = append(r.Notes, fmt.Sprintf("bound %d stopped by the time budget after %d executions (no violation among them unless listed)", b, st.Executions))
 			mergeViol(r, st)
